@@ -29,7 +29,7 @@ RESPONSES = ["y", "y", "y", "f", "h", "g['g1']", "u[p]", "np.abs(y)", None]
 def case_strategy(draw):
     spec = draw(rich.frame_strategy(min_rows=8, max_rows=26, with_index=True, extra_unused=False))
     resp = draw(st.sampled_from(RESPONSES))
-    d = draw(rich.design(response=resp, max_groups=2))
+    d = draw(rich.design(response=resp, max_groups=3))
     if resp and rich.bases(resp) & rich.used_columns(dict(d, response=None)):
         d = dict(d, response="y")
         d["formula"] = rich.render(d)
@@ -177,9 +177,17 @@ def judge(ctx, case):
     for fn in (str, repr):
         try:
             text = fn(dm)
-            for m in (dm.response, dm.common, dm.group):
-                if m is not None and str(np.asarray(m.design_matrix).shape) not in text:
-                    ctx.fail("printing", case, f"{where}: {fn.__name__}(DesignMatrices) does not report {np.asarray(m.design_matrix).shape}", "design:shape")
+            for label, m in (("Response", dm.response), ("Common", dm.common), ("Group-specific", dm.group)):
+                lines = [l for l in text.splitlines() if l.strip().startswith(label + ":")]
+                if m is None:
+                    if lines:
+                        ctx.fail("printing", case, f"{where}: {fn.__name__}(DesignMatrices) has a '{label}:' line but no such matrix", "design:line")
+                    continue
+                shape = str(np.asarray(m.design_matrix).shape)
+                if shape not in text:
+                    ctx.fail("printing", case, f"{where}: {fn.__name__}(DesignMatrices) does not report {shape}", "design:shape")
+                elif lines and not any(shape in l for l in lines):
+                    ctx.fail("printing", case, f"{where}: {fn.__name__}(DesignMatrices) reports another shape than {shape} on its '{label}:' line: {lines}", "design:line")
         except Exception as e:  # pylint: disable=broad-except
             ctx.fail("printing", case, f"{where}: {fn.__name__}(DesignMatrices) raised {type(e).__name__}: {e}", "design")
     # ---- derived objects --------------------------------------------------------------------------------
